@@ -45,6 +45,9 @@ func rulesC15(c *Ctx) {
 	c.runAs("R3", "R8", func(cc *Ctx) { cc.c05Backends() })
 	c.runAs("R9", "R8", func(cc *Ctx) { cc.ruleUnlockCallers("R9") })
 	c.readersReturnEveryRow("R5", "GetProofsUsed", "GetPendingProofs", "GetPendingProofsByQuote", "GetBlindSignatures")
+	// the witness a proof was spent with is reported by the state check: the nullable column is carried into the row
+	// and read on the side where it is valid
+	c.scannedLocalsReachResult("R5", "GetProofsUsed", "GetPendingProofs", "GetPendingProofsByQuote")
 }
 
 // c15PendingToSpentKeepsFields: R7. When a pending melt is settled later (poll / state check), the proofs that go
